@@ -30,7 +30,7 @@ VERIF = Path(__file__).resolve().parents[1]
 REPO = Path(os.environ.get('HOMONIM_REPO', '/repo'))
 OUT = VERIF / 'coq' / 'gen' / 'Formulas.v'
 sys.path.insert(0, str(VERIF))
-from translate.resolve import Flow, helper_inliner as generic_inliner, parse_source      # noqa: E402
+from translate.resolve import Flow, own_returns, helper_inliner as generic_inliner, parse_source      # noqa: E402
 
 
 class TranslatorError(Exception):
@@ -520,6 +520,31 @@ def kernel_part(km, out):
     emit('gbo_offset', state[1], GBO)
     oko = len(nodata_forced) == 1 and fit_pos is not None and nodata_forced[0] < norm_seen[0][0] < fit_pos
     out.append(f'Definition gen_gbo_order_ok : bool := {"true" if oko else "false"}.     (* nodata := NaN, then normalise, then fit *)')
+
+    # ================================================================= _fit_block_norm: the block normalisation itself
+    #   [std(ref) / std(src), pct1(ref) - pct1(src) * gain] over the jointly valid pixels, for ANY number of them; the zero model only when there
+    #   is none (a threshold on the count, a fallback model or a remembered one is another function)
+    f = find_func(km, 'KernelModel', '_fit_block_norm')
+    fl = Flow(f, module=km)
+    ps_ = [p_ for p_ in fl.params if p_ not in ('self', 'cls')]
+    okn = len(ps_) == 2
+    if okn:
+        sp, rp = ps_
+        M = {f'{rp}.mask & {sp}.mask', f'{sp}.mask & {rp}.mask'}
+        some = {f'np.any({m_})' for m_ in M} | {f'{m_}.sum() > 0' for m_ in M} | {f'np.count_nonzero({m_}) > 0' for m_ in M}
+        rets_ = [fl.text(r_.value, r_) for r_ in own_returns(f) if r_.value is not None]
+        sts = [(t_, k_, U(v_) if not isinstance(v_, tuple) else None, fl.guards(s_, raises=True)) for (s_, t_, k_, v_) in fl.stores()]
+        zero = rets_[0] if len(set(rets_)) == 1 else None
+        okn = zero in ('np.zeros(2)', 'np.zeros(2, dtype=float)', 'np.array([0.0, 0.0])') and len(sts) == 2 and all(own_guards == [] for own_guards in [fl.guards(r_, raises=True) for r_ in own_returns(f)])
+        if okn:
+            want0 = {f'{a_} / {b_}' for m_ in M for m2_ in M for a_ in (f'np.std({rp}.array[{m_}])', f'{rp}.array[{m_}].std()')
+                     for b_ in (f'np.std({sp}.array[{m2_}])', f'{sp}.array[{m2_}].std()')}
+            want1 = {f'np.percentile({rp}.array[{m_}], 1) - np.percentile({sp}.array[{m2_}], 1) * {zero}[0]' for m_ in M for m2_ in M}
+            by_t = {t_: (k_, v_, g_) for (t_, k_, v_, g_) in sts}
+            a0, a1 = by_t.get(f'{zero}[0]'), by_t.get(f'{zero}[1]')
+            okn = a0 is not None and a1 is not None and a0[0] == a1[0] == 'assign' and a0[1] in want0 and a1[1] in want1 \
+                and all(len(g_) == 1 and g_[0][1] and g_[0][0] in some for g_ in (a0[2], a1[2]))
+    out.append(f'Definition gen_block_norm_ok : bool := {"true" if okn else "false"}.     (* std ratio and 1st-percentile difference over the jointly valid pixels; zeros iff there is none *)')
 
     # ================================================================= apply
     f = find_func(km, 'KernelModel', 'apply')
